@@ -340,3 +340,20 @@ impl<T: Transport> Session<T> {
             .map(|fut| async move { fut.await.map(|()| drop(self)) })
     }
 }
+
+#[cfg(feature = "verif")]
+impl<T: Transport> Session<T> {
+    /// verification hook
+    pub async fn verif_new(transport: T) -> Result<Self, Error> {
+        Self::new(transport).await
+    }
+}
+
+#[cfg(all(feature = "verif", feature = "junos"))]
+impl Session<JunosLocal> {
+    /// verification hook: as [`Session::junos_local`], but spawning `program` instead of the Junos `cli`.
+    pub async fn verif_junos_local(program: &std::path::Path) -> Result<Self, Error> {
+        let transport = JunosLocal::verif_connect(program).await?;
+        Self::new(transport).await
+    }
+}
